@@ -1015,7 +1015,7 @@ class n0dict(n0dict_):
                 cur_parent_node, cur_node_name_index, cur_value, cur_found_xpath_str, \
                     cur_not_found_xpath_list = n0dict._find(self, 
                         # '..' is already not included into xpath_found_str, so just remove only last node
-                        [itm for itm in xpath_found_str.split('/') if itm][:-1],
+                        [itm for itm in xpath_found_str.replace("][","]/[").split('/') if itm][:-1],
                         self,
                         return_lists
                     )
